@@ -171,8 +171,9 @@ pub fn alphabet(quick: bool) -> Vec<[f64; 2]> {
     // pre-images of the strata of the inner function (ln is a Newton iteration on exp): x = exp(k/4 + d)
     for k in (-2400..=2400i64).step_by(if quick { 3 } else { 1 }) {
         let q = k as f64 * 0.25;
-        for d in [0.0, 1.0, -1.0, 1.0 / 16.0, -1.0 / 16.0, 32.0, -32.0] {
-            // offsets below half an ulp of q (the high word of the iterate stays exactly q) and one above
+        for d in [0.0, 1.0, -1.0, 1.0 / 16.0, -1.0 / 16.0, 2.0, -2.0, 3.0, -3.0, 3.9, -3.9, 32.0, -32.0] {
+            // offsets from 1/128 of an ulp of q up to just below half an ulp (a second-order term in the low word of the
+            // iterate grows with the square of the offset and with |q|) and one above; offsets below half an ulp of q (the high word of the iterate stays exactly q) and one above
             let t = tfref::bf::Bf::from_f64(q).add_exact(&tfref::bf::Bf::from_f64(d * 2f64.powi(-55) * q.abs().max(0.25)));
             if let Some(w) = crate::fx::dd_of(&rf::exp_pt(&t, 256)) {
                 v.push(w);
